@@ -286,7 +286,13 @@ def run_case(case, rec, mon=None):
                 mode = _ramp_pad
             x = _data(rng, shape, dtype)
             x.setflags(write=False)
-            d = P.Deltas(nd, target_axis=target_axis, concatenate=concatenate, context_window=W, pad_mode=mode, **kwargs)
+            if rng.random() < 0.1:
+                # `concatenate` is a documented public attribute: apply must follow a later assignment
+                d = P.Deltas(nd, target_axis=target_axis, concatenate=not concatenate, context_window=W, pad_mode=mode, **kwargs)
+                d.concatenate = concatenate
+                rec.count("attributes_reassigned_after_construction")
+            else:
+                d = P.Deltas(nd, target_axis=target_axis, concatenate=concatenate, context_window=W, pad_mode=mode, **kwargs)
             try:
                 if rng.random() < 0.5:
                     d.apply(x, axis)
@@ -313,7 +319,12 @@ def run_case(case, rec, mon=None):
             in_place = bool(rng.random() < 0.25)
             if not in_place:
                 x.setflags(write=False)
-            s = P.Stack(n, time_axis=time_axis, pad_mode=mode, **kwargs)
+            if rng.random() < 0.1:
+                s = P.Stack(int(rng.integers(1, 7)), time_axis=0, pad_mode=mode, **kwargs)
+                s.num_vectors, s.time_axis = n, time_axis  # documented public attributes
+                rec.count("attributes_reassigned_after_construction")
+            else:
+                s = P.Stack(n, time_axis=time_axis, pad_mode=mode, **kwargs)
             try:
                 y = s.apply(x, axis, in_place) if rng.random() < 0.5 else s.apply(x, axis=axis, in_place=in_place)
             except Exception:
